@@ -456,9 +456,9 @@ def twin_exec(op, a2b):
                 return "EINVAL", None         # readlink(2) on Linux: bufsiz <= 0 is rejected before the lookup
             r = os.readlink(f(t[2]))
             return None, r                    # the whole target; the caller truncates to the guest buffer
-        elif t[1] == "stat":
-            st = os.stat(f(t[2]))
-            ft = 3 if stat.S_ISDIR(st.st_mode) else 4 if stat.S_ISREG(st.st_mode) else 2 if stat.S_ISCHR(st.st_mode) else 0
+        elif t[1] in ("stat", "lstat"):
+            st = os.stat(f(t[2])) if t[1] == "stat" else os.lstat(f(t[2]))
+            ft = 3 if stat.S_ISDIR(st.st_mode) else 4 if stat.S_ISREG(st.st_mode) else 2 if stat.S_ISCHR(st.st_mode) else 7 if stat.S_ISLNK(st.st_mode) else 0
             return None, (ft, st.st_size)
         return None, None
     except OSError as e:
@@ -540,6 +540,18 @@ def readlink_frame(chk, drv, broken, rt, bl, target, ename, mline, host_op):
             broken.append({"kind": "correspondence", "msg": f"path_readlink memory effect, buffer {bl}, target {target!r}: real `{' '.join(rt[:3])[:120]}` model `{' '.join(mo)[:120]}`"})
 
 
+def make_po_tree(R):
+    os.makedirs(os.path.join(R, "sub", "deep"))
+    os.makedirs(os.path.join(R, "full"))
+    open(os.path.join(R, "full", "x"), "w").close()
+    open(os.path.join(R, "file1"), "w").write("hello")
+    open(os.path.join(R, "sub", "file2"), "w").write("w")
+    os.symlink("file1", os.path.join(R, "lnk"))
+    os.symlink("sub", os.path.join(R, "dlnk"))               # link to a directory
+    os.symlink("w2c2verif-nowhere", os.path.join(R, "dang"))  # dangling
+    os.symlink("lnk", os.path.join(R, "chain"))              # link to a link
+
+
 def run_pathops(chk, h, scratch, pm, tier, broken, model_ok):
     rng = chk.rng
     values = wasi_errno_values()
@@ -554,12 +566,13 @@ def run_pathops(chk, h, scratch, pm, tier, broken, model_ok):
         A = os.path.join(base, "A", "root")
         B = os.path.join(base, "B", "root")
         for R in (A, B):
-            os.makedirs(os.path.join(R, "sub", "deep"))
-            os.makedirs(os.path.join(R, "full"))
-            open(os.path.join(R, "full", "x"), "w").close()
-            open(os.path.join(R, "file1"), "w").write("hello")
-            open(os.path.join(R, "sub", "file2"), "w").write("w")
-            os.symlink("file1", os.path.join(R, "lnk"))
+            make_po_tree(R)
+        seq_log = []            # (request to the real harness, reference answer) of this sequence, for replays
+
+        def pv(key, what, obj, found=True):
+            o = dict(obj)
+            o.update({"history": list(seq_log), "root": A, "preopens": [x.hex() for x in dirs]})
+            chk.violation(key, what, o, found)
         Ab, Bb = A.encode(), B.encode()
         a2b = lambda p: (Bb + p[len(Ab):]) if p.startswith(Ab) else p
         if h.ask("reset") != "ok":
@@ -571,7 +584,12 @@ def run_pathops(chk, h, scratch, pm, tier, broken, model_ok):
             slots[int(a.split()[1])] = dpath
         fds = sorted(slots)
         names = [b"n1", b"n2", b"file1", b"sub", b"sub/file2", b"sub/deep", b"full", b"lnk", b"sub/../n3", b"../root/n4",
-                 b"nodir/x", b"file1/x", b"l2", b"sub/n5", b"deep", b"file2", b"x" * 300, b"a\0b", b"./n6", b"sub//n7"]
+                 b"nodir/x", b"file1/x", b"l2", b"dlnk", b"dang", b"chain", b"dlnk/file2", b"dlnk/deep", b"chain/x", b"dang/x", b"sub/n5", b"deep", b"file2", b"x" * 300, b"a\0b", b"./n6", b"sub//n7"]
+        last_req = [None]
+
+        def ask(line):
+            last_req[0] = line
+            return h.ask(line)
         for oi in range(nops):
             kind = rng.choice(["mkdir", "mkdir", "rmdir", "rmdir", "unlink", "unlink", "rename", "rename", "symlink", "readlink", "stat", "stat"])
             def pick_fd():
@@ -602,28 +620,32 @@ def run_pathops(chk, h, scratch, pm, tier, broken, model_ok):
             if oi < 7:      # directed: the link `lnk` -> "file1" (5 bytes) read with shorter, exact-fit and longer buffers
                 kind, fd, slot, p = "readlink", fds[0], wp.hexs(slots[fds[0]]), b"lnk"
                 directed_bl = [5, 4, 6, 1, 3, 64, 5][oi]
+            stat_flags = rng.choice([0, 1, 1])
+            if 7 <= oi < 17:   # directed: stat through symbolic links (last / inner component, dangling, chain), with and without SYMLINK_FOLLOW
+                kind, fd, slot = "stat", fds[0], wp.hexs(slots[fds[0]])
+                p, stat_flags = [(b"lnk", 1), (b"lnk", 0), (b"dlnk", 1), (b"dang", 1), (b"dang", 0), (b"chain", 1), (b"dlnk/file2", 1), (b"dlnk/file2", 0), (b"chain", 0), (b"dlnk", 0)][oi - 7]
             if p is None:
                 dl = len(wp.unhexs(slot)) if slot not in ("null", "oob") else 10
                 p = b"y" * max(1, pm - dl - 1 + rng.choice([-2, -1, 0, 1]))
             extra = rng.choice([b"", b"", b"TRAILING-GARBAGE"])   # bytes behind the path belong to the NEXT object only for rename/symlink
             if kind in ("mkdir", "rmdir", "unlink", "stat"):
-                real = h.ask(f"{kind} {fd} {wp.hexs(p)} {len(p)}")
+                real = ask(f"{kind} {fd} {wp.hexs(p)} {len(p)}" + (f" {stat_flags}" if kind == "stat" else ""))
                 mline = f"pop {pm} {kind} {slot} {wp.hexs(p)} {len(p)}"
                 ref = ref_pathop(pm, kind, [sl(slot)], [p])
             elif kind == "readlink":
                 bl = directed_bl if directed_bl is not None else rng.choice([0, 1, 3, 4, 5, 6, 9, 64, 5000])
-                real = h.ask(f"readlink {fd} {wp.hexs(p)} {len(p)} {bl}")
+                real = ask(f"readlink {fd} {wp.hexs(p)} {len(p)} {bl}")
                 mline = f"pop {pm} readlink {slot} {wp.hexs(p)} {len(p)} {bl}"
                 ref = ref_pathop(pm, kind, [sl(slot)], [p], bl)
             elif kind == "rename":
                 fd2, slot2 = pick_fd()
                 p2 = pick_path() or b"n9"
-                real = h.ask(f"rename {fd} {wp.hexs(p)} {len(p)} {fd2} {wp.hexs(p2)} {len(p2)}")
+                real = ask(f"rename {fd} {wp.hexs(p)} {len(p)} {fd2} {wp.hexs(p2)} {len(p2)}")
                 mline = f"poprename {pm} {slot} {wp.hexs(p)} {len(p)} {slot2} {wp.hexs(p2)} {len(p2)}"
                 ref = ref_pathop(pm, kind, [sl(slot), sl(slot2)], [p, p2])
             else:
                 tgt = rng.choice([b"file1", b"../x", b"", b"t" * (pm - 1), b"t" * pm, b"sub/file2"])
-                real = h.ask(f"symlink {wp.hexs(tgt)} {len(tgt)} {fd} {wp.hexs(p)} {len(p)}")
+                real = ask(f"symlink {wp.hexs(tgt)} {len(tgt)} {fd} {wp.hexs(p)} {len(p)}")
                 mline = f"popsymlink {pm} {wp.hexs(tgt)} {len(tgt)} {slot} {wp.hexs(p)} {len(p)}"
                 ref = ref_pathop(pm, kind, [sl(slot)], [p], tgt)
             del extra
@@ -636,8 +658,9 @@ def run_pathops(chk, h, scratch, pm, tier, broken, model_ok):
             if mm is not None and mm != ref:
                 broken.append({"kind": "correspondence", "msg": f"path-call model vs reference statement: {mline[:100]}: model `{mm[:80]}` reference `{ref[:80]}` real `{real[:40]}`"})
             m = ref
+            seq_log.append((last_req[0], ref))
             if real.startswith("crash"):
-                chk.violation(f"pathop-{kind}-crash", f"path call {kind} crashed in the real code: {real[:120]}",
+                pv(f"pathop-{kind}-crash", f"path call {kind} crashed in the real code: {real[:120]}",
                               {"kind": "pathop", "request": mline, "real": real}, True)
                 h.ask("reset")
                 for dpath in dirs:
@@ -652,15 +675,33 @@ def run_pathops(chk, h, scratch, pm, tier, broken, model_ok):
                 if rt[0] != exp:
                     guest = [p] + ([p2] if kind == "rename" else [])
                     if any(b"\0" in g for g in guest):
-                        chk.violation("path-embedded-nul-truncated",
+                        pv("path-embedded-nul-truncated",
                                       f"{kind} with a guest path containing a NUL byte ({p!r}) is not rejected (returns {rt[0]}): the host operation acts on the path cut at the NUL, not on the resolved path",
                                       {"kind": "pathop-nul", "request": mline, "real": real}, True)
                     else:
-                        chk.violation(f"pathop-{kind}-not-rejected" if exp in ("8", "28") and rt[0] == "0" else f"pathop-{kind}-wrong-early-errno",
+                        pv(f"pathop-{kind}-not-rejected" if exp in ("8", "28") and rt[0] == "0" else f"pathop-{kind}-wrong-early-errno",
                                   f"{kind}: the property requires errno {exp} without any host operation, the real code returned `{real[:60]}`",
                                   {"kind": "pathop", "request": mline, "real": real, "expected": ref}, True)
                 continue
             ename, extra2 = twin_exec(m, a2b)
+            if kind == "stat":
+                # what lstat (NOT following a link in the last component) would give
+                en_l, ex_l = twin_exec(m.replace("host stat ", "host lstat ", 1), a2b)
+                differs = (en_l, ex_l) != (ename, extra2)
+                like_lstat = differs and ((en_l is None and rt[0] == "0" and len(rt) >= 4 and (int(rt[1]), int(rt[2])) == ex_l)
+                                          or (en_l is not None and rt[0] == str(reference_wasi_errno(en_l, values))))
+                if like_lstat and stat_flags == 0:
+                    # without SYMLINK_FOLLOW WASI asks for the link itself; the pinned code follows anyway (a TODO in the
+                    # source) — either behaviour is accepted for flags = 0
+                    hist["stat-nofollow-flag-lstat"] = hist.get("stat-nofollow-flag-lstat", 0) + 1
+                    continue
+                if like_lstat:
+                    pv("pathop-stat-does-not-follow-symlink",
+                                  f"path_filestat_get with the SYMLINK_FOLLOW lookup flag on {p!r} (last component is a symbolic link): real `{real[:60]}` is what lstat() reports for the link itself "
+                                  f"({'errno ' + en_l if en_l else 'filetype, size = ' + str(ex_l)}); stat() of the resolved path — which the property names — gives {'errno ' + ename if ename else 'filetype, size = ' + str(extra2)}",
+                                  {"kind": "pathop-stat-symlink", "request": mline, "guest_path": p.hex(), "lookup_flags": stat_flags, "real": real,
+                                   "expected": ("errno " + ename) if ename else str(extra2), "host_op": m}, True)
+                    continue
             if ename is None:
                 exp_model = "0"
                 exp_ref = "0"
@@ -671,26 +712,26 @@ def run_pathops(chk, h, scratch, pm, tier, broken, model_ok):
             errs[(ename or "ok")] = errs.get((ename or "ok"), 0) + 1
             if rt[0] != exp_ref:
                 if rt[0] == exp_model:
-                    chk.violation(f"errno-{ename}-untranslated",
+                    pv(f"errno-{ename}-untranslated",
                                   f"host error {ename} of {m.split()[1]} is returned as WASI errno {rt[0]} (the default EINVAL) although WASI defines {ename[1:]} = {exp_ref}: wasiErrno() has no case for {ename}",
                                   {"kind": "pathop-errno", "request": mline, "host_op": m, "host_errno": ename, "real": real, "expected": exp_ref}, True)
                 else:
-                    chk.violation(f"pathop-{kind}-wrong-errno-{ename or 'ok'}",
+                    pv(f"pathop-{kind}-wrong-errno-{ename or 'ok'}",
                                   f"{kind}: performing `{m[:120]}` directly gives {ename or 'success'} (WASI {exp_ref}); the real call returned `{real[:60]}`",
                                   {"kind": "pathop", "request": mline, "real": real, "expected": exp_ref, "host_op": m}, True)
             if m.split()[1] == "readlink":
                 readlink_frame(chk, drv if model_ok else None, broken, rt, bl, extra2 if ename is None else None, ename, mline, m)
             if m.split()[1] == "stat":
                 if rt[-1] != "frame1":
-                    chk.violation("pathop-stat-writes-outside-buffer", f"path_filestat_get wrote outside its 64-byte filestat buffer (or wrote although it failed): `{real[:80]}`",
+                    pv("pathop-stat-writes-outside-buffer", f"path_filestat_get wrote outside its 64-byte filestat buffer (or wrote although it failed): `{real[:80]}`",
                                   {"kind": "pathop", "request": mline, "real": real, "expected": "frame1", "host_op": m}, True)
                 if ename is None and (len(rt) < 4 or (int(rt[1]), int(rt[2])) != extra2):
-                    chk.violation("pathop-stat-wrong-result", f"path_filestat_get: real `{real[:80]}`, stat of the resolved path gives (filetype, size) = {extra2}",
+                    pv("pathop-stat-wrong-result", f"path_filestat_get: real `{real[:80]}`, stat of the resolved path gives (filetype, size) = {extra2}",
                                   {"kind": "pathop", "request": mline, "real": real, "expected": str(extra2), "host_op": m}, True)
         sa, sb = snapshot(os.path.join(base, "A")), snapshot(os.path.join(base, "B"))
         if sa != sb:
             diff = sorted(set(sa.items()) ^ set(sb.items()))[:6]
-            chk.violation("pathops-tree-differs", f"after {nops} path calls the tree differs from the tree obtained by performing the named POSIX operation on the resolved path: {diff}",
+            pv("pathops-tree-differs", f"after {nops} path calls the tree differs from the tree obtained by performing the named POSIX operation on the resolved path: {diff}",
                           {"kind": "pathop-tree", "diff": [str(x) for x in diff]}, True)
     chk.coverage["pathops"] = {"sequences": nseq, "ops": total, "by_call": hist, "host_results": {str(k): v for k, v in sorted(errs.items(), key=lambda x: str(x[0]))}}
 
@@ -790,13 +831,58 @@ def replay(path):
                 open(os.path.join(root, f"f{i}"), "w").close()
             rc = 0
             for phase in range(len(RdSession.POISON)):
-                s = RdSession(h, root.encode(), phase=phase)
-                recs, stuck, bad = listing(s, 300)
-                ok = not bad and not stuck and len(recs) == 5
-                print(f"replay: listing with errno-on-entry history {[c[2] for c in s.calls]}: " + (f"{len(recs)} entries, ok" if ok else f"FAILS: {bad or recs}"))
-                if not ok:
+                for bl in (300, 40):
+                    s = RdSession(h, root.encode(), phase=phase)
+                    recs, stuck, bad = listing(s, bl)
+                    ok = not bad and not stuck and len(recs) == 5
+                    for k in range(len(recs)):                       # resume from every returned cookie, then list again from cookie 0
+                        r2, st2, bad2 = listing(s, bl, recs[k][0])
+                        ok = ok and not bad2 and not st2 and r2 == recs[k + 1:]
+                        bad = bad or bad2
+                    r3, st3, bad3 = listing(s, bl, 0)
+                    ok = ok and not bad3 and r3 == recs
+                    print(f"replay: buffer {bl}: listing, resume from every cookie and re-listing from cookie 0 on one descriptor, errno-on-entry history {[c[2] for c in s.calls][:8]}…: " + ("ok" if ok else f"FAILS: {(bad or bad3 or recs)!s:.100}"))
+                    if not ok:
+                        rc = 1
+                    s.close()
+        elif kind in ("pathop", "pathop-tree") and r.get("history"):
+            # re-create the initial tree at a path of the SAME length, re-issue the recorded calls of the sequence to the
+            # real code and perform the operation the property names on a twin tree; compare errno and the trees
+            oldA = r["root"]
+            base_len = len(oldA) - len("/A/root")
+            newbase = os.path.join(d, "p")
+            newbase = newbase + "p" * (base_len - len(newbase))
+            if len(newbase) != base_len:
+                print(f"replay: cannot build a scratch path of length {base_len} under {d}")
+                return 1
+            A, B = os.path.join(newbase, "A", "root"), os.path.join(newbase, "B", "root")
+            make_po_tree(A)
+            make_po_tree(B)
+            Ab, Bb, oAb = A.encode(), B.encode(), oldA.encode()
+            a2b = lambda p: (Bb + p[len(Ab):]) if p.startswith(Ab) else p
+            h.ask("reset")
+            for hx in r["preopens"]:
+                h.ask("preopen " + wp.hexs(bytes.fromhex(hx).replace(oAb, Ab)))
+            values = wasi_errno_values()
+            rc = 0
+            for req, ref in r["history"]:
+                req2 = req.replace(oAb.hex(), Ab.hex())
+                ref2 = ref.replace(oAb.hex(), Ab.hex())
+                out = h.ask(req2).split()
+                if ref2.startswith("errno "):
+                    exp = ref2.split()[1]
+                else:
+                    en, _ = twin_exec(ref2, a2b)
+                    exp = "0" if en is None else str(reference_wasi_errno(en, values) or 28)
+                if out[0] != exp:
+                    print(f"replay: `{req2[:90]}` returns {out[0]}; the operation the property names (`{ref2[:90]}`) gives {exp}")
                     rc = 1
-                s.close()
+            sa, sb = snapshot(os.path.join(newbase, "A")), snapshot(os.path.join(newbase, "B"))
+            if sa != sb:
+                print(f"replay: after the {len(r['history'])} recorded calls the tree differs from the twin: {sorted(set(sa.items()) ^ set(sb.items()))[:4]}")
+                rc = 1
+            if rc == 0:
+                print(f"replay: {len(r['history'])} recorded path calls: every errno and the final tree agree with the operations the property names")
         elif kind == "pathop-readlink":
             root = os.path.join(d, "A", "root")
             os.makedirs(root)
@@ -812,6 +898,22 @@ def replay(path):
                 exp[0:4] = struct.pack("<I", n)
                 ok = len(out) == 4 and out[0] == "0" and wp.unhexs(out[2]) == bytes(exp) and out[3] == "path1"
                 print(f"replay: path_readlink of a link to \"file1\" into a {bl}-byte buffer: guard|buffer|guard = {wp.unhexs(out[2])[12:].hex() if len(out) > 2 else out} " + ("ok" if ok else f"— differs from the required {bytes(exp)[12:].hex()}"))
+                if not ok:
+                    rc = 1
+        elif kind == "pathop-stat-symlink":
+            root = os.path.join(d, "A", "root")
+            os.makedirs(os.path.join(root, "sub"))
+            open(os.path.join(root, "file1"), "w").write("hello!!")
+            os.symlink("file1", os.path.join(root, "lnk"))
+            os.symlink("sub", os.path.join(root, "dlnk"))
+            os.symlink("w2c2verif-nowhere", os.path.join(root, "dang"))
+            h.ask("reset")
+            fd = h.ask("preopen " + wp.hexs(root.encode())).split()[1]
+            rc = 0
+            for name, exp in ((b"lnk", "0 4 7"), (b"dlnk", "0 3"), (b"dang", "44")):
+                out = h.ask(f"stat {fd} {wp.hexs(name)} {len(name)} 1")
+                ok = out.startswith(exp)
+                print(f"replay: path_filestat_get(SYMLINK_FOLLOW, {name.decode()!r}): real `{out}` — required to start with `{exp}` (errno [filetype size]: the link's TARGET, NOENT for a dangling link) " + ("ok" if ok else "FAILS"))
                 if not ok:
                     rc = 1
         elif kind == "pathop-errno":
